@@ -93,6 +93,109 @@ fn check_pool(case: &PoolCase, st: &mut Stats) -> Result<(), String> {
     })
 }
 
+// (b') the same pool under real thread parallelism
+
+#[derive(Debug, Clone, Serialize, Deserialize, Hash)]
+pub struct PoolThreadsCase {
+    allowed: Vec<u64>,
+    extra_limit: usize,
+    /// Keys inserted at the same moment, one task (on its own worker thread) per entry; keys repeat.
+    inserts: Vec<u64>,
+    workers: u8,
+    reps: u16,
+}
+
+pub fn gen_pool_threads(ch: &mut Choices) -> PoolThreadsCase {
+    let n = 2 + ch.below(7);
+    PoolThreadsCase {
+        allowed: (0..ch.below(3) as u64).collect(),
+        extra_limit: ch.below(3),
+        inserts: (0..n).map(|_| ch.below(4) as u64).collect(),
+        workers: ch.pick(&[2u8, 4, 8]),
+        reps: 200,
+    }
+}
+
+/// Oracle valid under every interleaving: per key at most one of the simultaneous inserts succeeds (exactly one if the key is
+/// allowed), the number of admitted keys outside the allowed set never exceeds the quota, the pool holds exactly the admitted keys.
+pub fn check_pool_threads(case: &PoolThreadsCase, st: &mut Stats) -> Result<(), String> {
+    use std::sync::{
+        atomic::{AtomicUsize, Ordering},
+        Arc,
+    };
+    let rt = tokio::runtime::Builder::new_multi_thread().worker_threads(case.workers.clamp(2, 16) as usize).enable_all().build().map_err(|e| format!("INFRA: runtime: {e}"))?;
+    let allowed: HashSet<u64> = case.allowed.iter().copied().collect();
+    let mut verdict = Ok(());
+    'reps: for rep in 0..case.reps.max(1) {
+        let pool = Arc::new(Pool::new(allowed.clone(), case.extra_limit));
+        let ready = Arc::new(AtomicUsize::new(0));
+        let n = case.inserts.len();
+        let results: Vec<(u64, bool)> = rt.block_on(async {
+            let mut tasks = vec![];
+            for (i, k) in case.inserts.iter().enumerate() {
+                let (pool, ready, k) = (pool.clone(), ready.clone(), *k);
+                tasks.push(tokio::spawn(async move {
+                    ready.fetch_add(1, Ordering::SeqCst);
+                    // spin until every task is on a worker (bounded: with fewer workers than tasks the late ones just start later)
+                    let mut spins = 0u32;
+                    while ready.load(Ordering::SeqCst) < n && spins < 20_000 {
+                        std::hint::spin_loop();
+                        spins += 1;
+                    }
+                    (k, pool.insert(k, i as u64).await.is_ok())
+                }));
+            }
+            let mut out = vec![];
+            for t in tasks {
+                out.push(t.await.unwrap());
+            }
+            out
+        });
+        let mut admitted: BTreeMap<u64, usize> = BTreeMap::new();
+        for (k, ok) in &results {
+            if *ok {
+                *admitted.entry(*k).or_default() += 1;
+            }
+        }
+        for (k, c) in &admitted {
+            if *c > 1 {
+                verdict = Err(format!("repetition {rep}: {c} simultaneous inserts of key {k} were all admitted; an identity may hold one connection"));
+                break 'reps;
+            }
+        }
+        for k in case.inserts.iter().filter(|k| allowed.contains(k)) {
+            if !admitted.contains_key(k) {
+                verdict = Err(format!("repetition {rep}: no insert of the allowed key {k} was admitted"));
+                break 'reps;
+            }
+        }
+        let extras = admitted.keys().filter(|k| !allowed.contains(k)).count();
+        if extras > case.extra_limit {
+            verdict = Err(format!("repetition {rep}: {extras} keys outside the allowed set were admitted at once, the quota is {}", case.extra_limit));
+            break 'reps;
+        }
+        let distinct_extras = case.inserts.iter().filter(|k| !allowed.contains(k)).collect::<HashSet<_>>().len();
+        if extras < case.extra_limit.min(distinct_extras) {
+            verdict = Err(format!("repetition {rep}: only {extras} of {distinct_extras} keys outside the allowed set were admitted although the quota is {}", case.extra_limit));
+            break 'reps;
+        }
+        let cur: Vec<u64> = pool.current().keys().copied().collect();
+        let want: Vec<u64> = admitted.keys().copied().collect();
+        if cur != want {
+            verdict = Err(format!("repetition {rep}: the pool holds {cur:?}, the admitted inserts were for {want:?}"));
+            break 'reps;
+        }
+    }
+    rt.shutdown_timeout(std::time::Duration::from_secs(5));
+    let dup = case.inserts.iter().collect::<HashSet<_>>().len() < case.inserts.len();
+    if dup {
+        st.class("same_key_inserted_by_two_threads");
+        st.nontrivial(common::fingerprint(case));
+    }
+    st.sample(|| serde_json::to_value(case).unwrap());
+    verdict
+}
+
 // ---------------------------------------------------------------------------------------------
 // (a) handshakes
 
@@ -669,6 +772,7 @@ pub fn main(env: &Env) -> i32 {
             "handshake" => common::replay_case::<HsCase>(case, check_hs),
             "relay" => common::replay_case::<RelayCase>(case, check_relay),
             "admission" => common::replay_case::<AdmCase>(case, check_adm),
+            "pool_threads" => common::replay_case::<PoolThreadsCase>(case, check_pool_threads),
             p => Err(format!("unknown part {p}")),
         };
         return env.finish_replay(&path, r);
@@ -694,6 +798,20 @@ pub fn main(env: &Env) -> i32 {
         check_relay,
     ));
     parts.extend(common::run_regress::<AdmCase>(env, "admission", check_adm));
+    parts.extend(common::run_regress::<PoolThreadsCase>(env, "pool_threads", check_pool_threads));
+    {
+        let mut seq = env.clone_for_part();
+        seq.shards = 2;
+        parts.push(run_proptest(
+            &seq,
+            "pool_threads",
+            "the real PoolWatch on a multi-thread runtime (2-8 workers): 2-8 tasks released together insert keys drawn from 4 (so that keys repeat) into a fresh pool with 0-2 allowed keys and a quota of 0-2, 200 repetitions per case; \
+             oracle valid under every interleaving: at most one insert per key is admitted (exactly one for an allowed key), the keys admitted outside the allowed set number exactly min(quota, distinct such keys), the pool holds exactly the admitted keys. Non-trivial = some key is inserted by two tasks",
+            PartOpts { cases: env.tier.pick(150, 3_000), max_shrink_iters: 40, samples: 2 },
+            || Choices::strategy(20).prop_map(|mut ch| gen_pool_threads(&mut ch)),
+            check_pool_threads,
+        ));
+    }
     parts.push(run_proptest(
         env,
         "admission",
